@@ -79,3 +79,41 @@ kproof!(noerr, 4, fn c04_q_builtin_check_arity_agrees() {
     assert!(BuiltInFunction::Concat.arity().can_accept(n) == (n >= 2));
     kani::cover!(true, "reach-end");
 });
+
+// ---------------------------------------------------------------------------------------------
+// positional binding, binding phase only (the body is cut): every argument count that the
+// arity check lets through is bound without indexing out of range.  Only parameter lists whose
+// binding needs at most one map insertion before the interesting point are in reach (a second
+// hashbrown insertion does not finish under CBMC).
+macro_rules! c04_binding_phase {
+    ($name:ident, $args:expr, $vals:expr) => {
+        #[cfg(kani)]
+        #[kani::proof]
+        #[kani::unwind(20)]
+        #[kani::stub(std::hash::RandomState::new, crate::util::stub_random_state_new)]
+        #[kani::stub(alloc::alloc::dealloc, crate::util::stub_dealloc)]
+        #[kani::stub(alloc::alloc::dealloc_nonnull, crate::util::stub_dealloc_nonnull)]
+        #[kani::stub(std::backtrace::Backtrace::capture, crate::util::stub_backtrace_capture)]
+        #[kani::stub(alloc::fmt::format, crate::util::stub_format)]
+        #[kani::stub(std::time::Instant::now, crate::util::stub_instant_now)]
+        #[kani::stub(std::sync::Mutex::lock, crate::util::stub_mutex_lock)]
+        #[kani::stub(::anyhow::Error::msg, crate::util::stub_anyhow_msg_cut)]
+        #[kani::stub(::anyhow::__private::format_err, crate::util::stub_anyhow_format_err_cut)]
+        #[kani::stub(blots_core::expressions::evaluate_ast, crate::util::stub_evaluate_ast_null)]
+        pub fn $name() {
+            let a: f64 = kani::any();
+            let def = lambda_def($args);
+            let heap = arena::heap();
+            let mk: fn(f64) -> Vec<Value> = $vals;
+            let args = mk(a);
+            kani::cover!(def.check_arity(args.len()).is_ok(), "the arity check accepts this call");
+            let _ = def.call(Value::Null, args, heap.clone(), arena::env(), 0, "");
+            std::mem::forget((def, heap));
+        }
+    };
+}
+use blots_core::values::Value;
+c04_binding_phase!(c04_q_binding_optional_before_required, vec![opt("a"), req("b")], |a| crate::av![Value::Number(a)]);
+c04_binding_phase!(c04_t_binding_rest_before_required, vec![rest("r"), req("b")], |a| crate::av![Value::Number(a)]);
+c04_binding_phase!(c04_t_binding_single_required, vec![req("a")], |a| crate::av![Value::Number(a)]);
+c04_binding_phase!(c04_t_binding_single_optional_no_arg, vec![opt("a")], |_a| crate::av![]);
